@@ -397,7 +397,7 @@ for _pid in CLAIMS:
 
 # ---- session 6 (DESIGN.md 13.7)
 SHARED6 = (" Session 6 added: block loops that drop the remainder (R-BLOCKTAIL), index-skipping generators consumed by position (R-GENSKIP), closures stored per loop iteration "
-           "that read the loop variable late (R-LATEBIND); the algebra comparison refutes fixed-decimal rounding wrapped around a real quantity and searches witnesses where the "
+           "that read the loop variable late (R-LATEBIND), histograms re-implemented with left-sided searchsorted (R-BINSIDE); the algebra comparison refutes fixed-decimal rounding wrapped around a real quantity and searches witnesses where the "
            "argument of an integer part is a whole number; the shared rules still run when the property-specific analysis aborts (exit 2 at least, exit 1 if they find a violation).")
 ADD6 = {
     "C01": "The list of frames a wrapper returns may not be sorted, reversed or strided (file order).",
